@@ -128,7 +128,7 @@ type c02Gen struct {
 	classes map[string]bool
 }
 
-var c02TextAlpha = []string{"<", "%", ">", "\\", "=", "#", "\"", "'", "`", "{", "}", "(", ")", "\n", "\r", "\t", " ", "a", "é", "✓", "<%", "%>", "<%=", "b", "-", ".", "\x00", "h\x00i\x00", "\xff\xfe"}
+var c02TextAlpha = []string{"<", "%", ">", "\\", "=", "#", "\"", "'", "`", "{", "}", "(", ")", "\n", "\r", "\t", " ", "a", "é", "✓", "<%", "%>", "<%=", "b", "-", ".", "\x00", "h\x00i\x00", "\xff\xfe", "\xef\xbb\xbf"}
 
 // text returns an intended literal text (what must appear in the output).
 func (g *c02Gen) text() string {
